@@ -1,4 +1,5 @@
 import Model.Wire
+import Model.HttpHop
 import Proofs.Lemmas.Reply
 import Proofs.Lemmas.Server
 import Proofs.C05
@@ -698,5 +699,118 @@ example : Ready { extTls := false, extAuth := false, extSize := some 100, banner
   · decide
 
 end Hop
+
+/-! ## The HTTP transport end to end (Model/HttpHop.lean) -/
+section httphop
+open Slimta.HttpHop
+
+theorem decimal_fold (n : Nat) : ∀ acc : Nat,
+    (decimal n).foldl (fun acc c => acc.bind fun a => if isDigitN c then some (a * 10 + (c - 48)) else none) (some acc)
+      = some (acc * 10 ^ (decimal n).length + n) := by
+  fun_induction decimal n with
+  | case1 n h =>
+    intro acc
+    have : isDigitN (48 + n) = true := by simp [isDigitN]; omega
+    simp [this]
+  | case2 n h ih =>
+    intro acc
+    have hd : isDigitN (48 + n % 10) = true := by simp [isDigitN]; omega
+    rw [List.foldl_append, ih acc]
+    simp only [List.foldl_cons, List.foldl_nil, Option.bind_some, hd, if_true, List.length_append, List.length_cons, List.length_nil]
+    congr 1
+    have := Nat.div_add_mod n 10
+    rw [Nat.pow_succ]
+    have e : 48 + n % 10 - 48 = n % 10 := by omega
+    rw [e]
+    calc (acc * 10 ^ (decimal (n / 10)).length + n / 10) * 10 + n % 10
+        = acc * (10 ^ (decimal (n / 10)).length * 10) + (10 * (n / 10) + n % 10) := by
+          rw [Nat.add_mul, Nat.mul_assoc, Nat.mul_comm (n / 10) 10, Nat.add_assoc]
+      _ = acc * (10 ^ (decimal (n / 10)).length * 10) + n := by rw [this]
+
+theorem decimal_ne_nil (n : Nat) : decimal n ≠ [] := by
+  unfold decimal; split <;> simp
+
+/-- `int(str(n)) = n` -/
+theorem parse_decimal (n : Nat) : parseDecimal (decimal n) = some n := by
+  unfold parseDecimal
+  have hne := decimal_ne_nil n
+  have : (decimal n).isEmpty = false := by simpa using hne
+  simp only [this, Bool.false_eq_true, if_false]
+  rw [decimal_fold n 0]; simp
+
+theorem filter_rcpts_ne (rs : List (List Nat)) (n : HName) (h : n ≠ .rcpt) :
+    ((rs.map fun r => (HName.rcpt, b64enc r)).filter (·.1 == n)) = [] := by
+  induction rs with
+  | nil => rfl
+  | cons r rest ih =>
+    have : (HName.rcpt == n) = false := by
+      cases n <;> first | rfl | exact absurd rfl h
+    simp [List.filter_cons, this, ih]
+
+theorem filter_rcpts_eq (rs : List (List Nat)) :
+    ((rs.map fun r => (HName.rcpt, b64enc r)).filter (·.1 == HName.rcpt)) = rs.map fun r => (HName.rcpt, b64enc r) := by
+  induction rs with
+  | nil => rfl
+  | cons r rest ih => simp [List.filter_cons, ih]
+
+theorem b64enc_ne_nil (r : List Nat) (h : r ≠ []) : b64enc r ≠ [] := by
+  match r, h with
+  | [a], _ => simp [b64enc]
+  | [a, b], _ => simp [b64enc]
+  | a :: b :: c :: rest, _ => simp [b64enc]
+
+theorem joinTokens_ne_nil (ts : List (List Nat)) (hne : ts ≠ []) (h : ∀ t ∈ ts, t ≠ []) : joinTokens ts ≠ [] := by
+  match ts, hne with
+  | [t], _ => simpa [joinTokens] using h t (by simp)
+  | t :: t2 :: rest, _ =>
+    simp only [joinTokens]
+    have := h t (by simp)
+    intro he
+    exact this (List.append_eq_nil_iff.mp he).1
+
+/-- **The HTTP hop end to end.** Whatever the EHLO string, the sender (any bytes, the null sender included), the recipients
+    (any number, any non-empty byte strings) and the message data are: the request the relay client writes — Content-Length,
+    Content-Type, X-Ehlo, X-Envelope-Sender and one X-Envelope-Recipient per recipient, all base64 —, presented to the WSGI
+    application the way the server presents header lists (equally named headers joined with a comma), is read by the edge as
+    exactly that EHLO string, that sender, those recipients in that order, and exactly the message data (the body cut at the
+    announced length). -/
+theorem http_hop_delivers (e : Env) (dflt : List Nat)
+    (hs : ∀ x ∈ e.sender, x < 256) (hr : ∀ r ∈ e.rcpts, r ≠ [] ∧ ∀ x ∈ r, x < 256) :
+    edgeEnvelope dflt (buildRequest e) = some e := by
+  have gS : environGet (buildRequest e) .sender = some (b64enc e.sender) := by
+    simp [environGet, buildRequest, List.filter_cons, filter_rcpts_ne e.rcpts .sender (by decide), joinTokens]
+  have gE : environGet (buildRequest e) .ehlo = some e.ehlo := by
+    simp [environGet, buildRequest, List.filter_cons, filter_rcpts_ne e.rcpts .ehlo (by decide), joinTokens]
+  have gC : environGet (buildRequest e) .contentLength = some (decimal e.data.length) := by
+    simp [environGet, buildRequest, List.filter_cons, filter_rcpts_ne e.rcpts .contentLength (by decide), joinTokens]
+  have gR : environGet (buildRequest e) .rcpt =
+      if e.rcpts = [] then none else some (joinTokens (e.rcpts.map b64enc)) := by
+    simp only [environGet, buildRequest, List.filter_append, filter_rcpts_eq]
+    cases hrs : e.rcpts with
+    | nil => simp [List.filter_cons]
+    | cons r rest => simp [List.filter_cons, List.map_map, Function.comp_def]
+  simp only [edgeEnvelope, gS, gE, gC, gR, Option.getD_some]
+  rw [b64_roundtrip e.sender hs, parse_decimal]
+  simp only [Option.bind_eq_bind, Option.bind_some, List.take_length]
+  by_cases hrs : e.rcpts = []
+  · have hb : (buildRequest e).body = e.data := rfl
+    simp only [hrs, if_true, hb, List.take_length]
+    cases e; simp_all
+  · have hraw : (joinTokens (e.rcpts.map b64enc)).isEmpty = false := by
+      have := joinTokens_ne_nil (e.rcpts.map b64enc) (by simpa using hrs)
+        (fun t ht => by obtain ⟨r, hr', rfl⟩ := List.mem_map.mp ht; exact b64enc_ne_nil r (hr r hr').1)
+      simpa using this
+    simp only [hrs, if_false, hraw, Bool.false_eq_true]
+    rw [http_recipients_preserved e.rcpts hrs (fun r hr' => (hr r hr').2)]
+    have hb : (buildRequest e).body = e.data := rfl
+    simp [hb]
+
+
+/-- non-vacuity: a null sender, two recipients, one of them with a comma and a space in it -/
+example : edgeEnvelope [] (buildRequest ⟨[120], [], [[97, 44, 32, 98], [99]], [72, 58, 32, 49, 13, 10, 13, 10, 255]⟩)
+    = some ⟨[120], [], [[97, 44, 32, 98], [99]], [72, 58, 32, 49, 13, 10, 13, 10, 255]⟩ :=
+  http_hop_delivers _ _ (by decide) (by decide)
+
+end httphop
 
 end Slimta.C06
